@@ -88,6 +88,14 @@ def impl(t, case):
     b = Built(u, mk_origin)
     n = b.build(nt)
     # every child object gets its address from the input term (Built.addr_of)
+    first = {}
+    if nt.args[0] % 2:
+        # the very first accessor calls of a class may be the sorted ones (the first-use specialisation must forward its
+        # arguments): what THESE calls return is what gets compared
+        first["gcn"] = [b.addr(c) for c in n.get_child_nodes(sort_keys=True)]
+        first["icf"] = [(v, f) for v, f in n.iter_child_fields(sort_keys=True)]
+        first["gcnf"] = [edge(b, c, f, i) for c, f, i in n.get_child_nodes_with_field(sort_keys=True)]
+        first["props"] = [f.name for _, f in n.get_properties(sort_keys=True)]
     combos = []
     for k in range(32):
         fl = dict(skip_id=bool(k & 1), skip_origin=bool(k & 2), skip_content_id=bool(k & 4),
@@ -99,17 +107,19 @@ def impl(t, case):
         combos.append([[f.name for _, f in unsorted_], [f.name for _, f in sorted_],
                        [f.name for f in cls.get_property_fields(**fl)]])
     pd = [[k, Con("Some", from_py(v))] for k, v in n.to_properties_dict().items()]
+    if "props" in first and first["props"] != [f.name for _, f in n.get_properties(sort_keys=True)]:
+        return Con("FirstCallDiffers", "get_properties(sort_keys=True)")
     shape = lambda v: Con("ShNone") if v is None else (Con("ShMany") if isinstance(v, tuple) else Con("ShOne"))
     kids = lambda v: [] if v is None else ([b.addr(x) for x in v] if isinstance(v, tuple) else [b.addr(v)])
     import dataclasses
     return Con("Acc", combos, pd,
                [edge(b, c, f, i) for c, f, i in n.get_child_nodes_with_field()],
-               [edge(b, c, f, i) for c, f, i in n.get_child_nodes_with_field(sort_keys=True)],
+               first.get("gcnf") if "gcnf" in first else [edge(b, c, f, i) for c, f, i in n.get_child_nodes_with_field(sort_keys=True)],
                [b.addr(c) for c in n.get_child_nodes()],
-               [b.addr(c) for c in n.get_child_nodes(sort_keys=True)],
+               first.get("gcn") if "gcn" in first else [b.addr(c) for c in n.get_child_nodes(sort_keys=True)],
                [b.addr(c) for c in n.children],
                [[f.name, shape(v), kids(v)] for v, f in n.iter_child_fields()],
-               [[f.name, shape(v), kids(v)] for v, f in n.iter_child_fields(sort_keys=True)],
+               [[f.name, shape(v), kids(v)] for v, f in (first["icf"] if "icf" in first else n.iter_child_fields(sort_keys=True))],
                [f.name for f in cls.get_child_fields()],
                [f.name for f in dataclasses.fields(cls) if f.name not in ("id", "content_id", "origin")])
 
